@@ -529,7 +529,7 @@ def run(ctx):
         "distinct_nontrivial": len(distinct), "rule": RULE, "samples": samples,
         "l1_definitions": len(items), "input_distribution": dict(stats), "outcomes": dict(outcome_hist),
         "accepted_ratio": round(acc, 3), "verdicts": dict(verdicts), "l2": dict(l2stats),
-        "exhaustive": {"address_types": "all seven in every run (see input_distribution type_*)", "complete": False},
+        "exhaustive": False, "exhaustive_note": {"address_types": "all seven in every run (see input_distribution type_*)", "complete": False},
         "model_variant": "fx=" + ac.fx_flag(), "disagreements": len(bad) + len(l2viols)})
 
 
